@@ -536,7 +536,7 @@ func (generator *BuilderGenerator) FromAST(schemas Schemas) []Builder {
 	for _, schema := range schemas {
 		schema.Objects.Iterate(func(_ string, object Object) {
 			resolvedType := schemas.ResolveToType(object.Type)
-			if !resolvedType.IsAnyOf(KindStruct, KindRef) {
+			if !resolvedType.IsStruct() {
 				return
 			}
 
